@@ -24,6 +24,13 @@ type editor struct {
 }
 
 func (e editor) edit(from *Selection, to *Selection, s editStrategy) (err error) {
+	for _, sel := range []*Selection{from, to} {
+		if _, hasData := sel.Meta().(meta.HasDataDefinitions); !hasData && !meta.IsLeaf(sel.Meta()) {
+			// the selection of an action or notification (Find("rpc-name")) is for Action() and
+			// Notifications(), it has no data of its own to read or write
+			return fmt.Errorf("%w. '%s' is not a data node, it cannot be read or edited", fc.BadRequestError, sel.Meta().(meta.Identifiable).Ident())
+		}
+	}
 	if err := e.enter(from, to, false, s, true, true); err != nil {
 		return err
 	}
